@@ -1,4 +1,6 @@
 import PcbV.Lemmas.KeyBuf
+import PcbV.Gen.Translated
+import PcbV.Lemmas.PyIntLemmas
 /-
   C37 — The keyboard buffer is a 15-key FIFO mirrored in BIOS memory.
 
@@ -270,5 +272,48 @@ example : (specRun [] ((List.replicate 16 (.press [120] 45)) ++ List.replicate 1
     = List.replicate 15 [120] ++ [[], []] := by decide
 example : reads (run init ((List.replicate 16 (.press [120] 45)) ++ List.replicate 17 .read)).1
     = List.replicate 15 [120] ++ [[], []] := by decide +kernel
+
+/-! ### tie to the source: the ring arithmetic of `KeyboardBuffer`
+
+`PcbV.Gen.Translated.kbRingIndex / kbLength / kbStart / kbStop / kbFull` are regenerated from the Python
+AST of `KeyboardBuffer._ring_index`, the properties `length`, `start`, `stop` and the "ring is full" test
+of `append` (gen/tables_py2lean.py; parameters `buflen = len(self._buffer)`, `start = self._start`,
+`ring = self._ring_length`).  The theorems say that the hand-written model is that code at ring length 16,
+under the invariant `_start ≤ len(_buffer)` of the real object where the code subtracts. -/
+
+theorem translated_kb_supported :
+    Gen.Translated.kbRingIndex_supported = true ∧ Gen.Translated.kbLength_supported = true ∧
+    Gen.Translated.kbStart_supported = true ∧ Gen.Translated.kbStop_supported = true ∧
+    Gen.Translated.kbFull_supported = true := by decide
+
+/-- the ring length the keyboard is created with is the 16 of the model -/
+theorem translated_kb_ring_length : Gen.KeyBuf.ringLength = 16 := by decide
+
+theorem translated_kbRingIndex_eq (len : Nat) (index : Int) :
+    ringIndex len index = Gen.Translated.kbRingIndex (len : Int) 16 index := by
+  unfold ringIndex Gen.Translated.kbRingIndex
+  have e : Int.fmod (len : Int) 16 = ((len % 16 : Nat) : Int) := PyIntLemmas.fmod_natCast len 16
+  simp [e]
+
+theorem translated_kbLength_eq (s : KB) (h : s.start ≤ s.buf.length) :
+    ((length s : Nat) : Int) = Gen.Translated.kbLength (s.buf.length : Int) (s.start : Int) 16 := by
+  unfold length Gen.Translated.kbLength
+  omega
+
+theorem translated_kbStart_eq (s : KB) :
+    ((startP s : Nat) : Int) = Gen.Translated.kbStart (s.start : Int) 16 := by
+  unfold startP Gen.Translated.kbStart
+  exact (PyIntLemmas.fmod_natCast s.start 16).symm
+
+theorem translated_kbStop_eq (s : KB) (h : s.start ≤ s.buf.length) :
+    ((stopP s : Nat) : Int) = Gen.Translated.kbStop (s.buf.length : Int) (s.start : Int) 16 := by
+  unfold stopP Gen.Translated.kbStop
+  rw [← translated_kbLength_eq s h]
+  exact (PyIntLemmas.fmod_natCast (s.start + length s) 16).symm
+
+theorem translated_kbFull_eq (s : KB) (h : s.start ≤ s.buf.length) :
+    decide (s.buf.length - s.start ≥ 16 - 1) = Gen.Translated.kbFull (s.buf.length : Int) (s.start : Int) 16 := by
+  unfold Gen.Translated.kbFull
+  rw [decide_eq_decide]; omega
 
 end PcbV.C37
